@@ -177,6 +177,9 @@ def list_targets(coredata: cdata.CoreData, builddata: build.Build, backend: back
             raise RuntimeError('The target object in `builddata.get_targets()` is not of type `build.Target`. Please file a bug with this error message.')
 
         outdir = get_target_dir(builddata.environment.coredata, target.get_builddir())
+        if coredata.optstore.get_value_for(OptionKey('layout')) == 'flat' and target.get_build_subdir():
+            # flat layout: the backend writes to meson-out/<build_subdir>
+            outdir = os.path.join(outdir, target.get_build_subdir())
         t = {
             'name': target.get_basename(),
             'id': idname,
